@@ -91,6 +91,17 @@ def _cases_core(rng, tier):
         yield "wallet seedb:%s:%s" % (hx(sd), t), "seed-bytes-look-like-text"
         yield "master %s %s -" % (hx(sd), t), "seed-bytes-look-like-text-master"
         yield "wallet seedh:%s:%s" % (sx(sd.hex()), t), "seed-bytes-look-like-text-hexroute"
+    # held wallets: the first wallet is inspected only after a second one (valid or not) has been created
+    held = [("mn:%s:%s:%s:%s:0" % (sx(MN[0]), sx(nf(MN[0])), sx("TREZOR"), sx("TREZOR")),
+             "mn:%s:%s:%s:%s:1" % (sx(MN[1]), sx(nf(MN[1])), sx(""), sx(""))),
+            ("ent:%s:-:-:0" % sx("00" * 16), "ent:%s:-:-:0" % sx("ff" * 32)),
+            ("ent:%s:%s:%s:1" % (sx("7f" * 20), sx("pw"), sx("pw")), "seedb:%s:0" % hx(bytes(range(64)))),
+            ("seedb:%s:1" % hx(bytes(range(32))), "ent:%s:-:-:0" % sx("ab" * 17)),
+            ("ent:%s:-:-:0" % sx("01" * 24), "mn:%s:%s:%s:%s:0" % (sx("not a mnemonic"), sx("not a mnemonic"), sx("x"), sx("x")))]
+    for n_, (a_, b_) in enumerate(held):
+        yield "wallet_held %s %s" % (a_, b_), "held-wallet"
+        if n_ < 3:                      # (in the last two pairs the second wallet is invalid on purpose)
+            yield "wallet_held %s %s" % (b_, a_), "held-wallet"
     yield "wallet seedh:%s:0" % sx("zz"), "seed-hex-bad"
     yield "wallet seedh:%s:0" % sx("abc"), "seed-hex-odd"
 
@@ -122,6 +133,9 @@ def oracle(line, out):
     if tok[0] == "master":
         from .c01 import oracle as o1
         return o1(line, out)
+    if tok[0] == "wallet_held":
+        m = oracle("wallet " + tok[1], out)
+        return ("wallet looked at after another wallet (%s...) was created: %s" % (tok[2][:24], m)) if m else None
     if tok[0] == "seed":
         m, p = unstr(tok[1]), unstr(tok[3])
         if v is None or unhex(v) != indep_seed(m, p):
